@@ -90,6 +90,7 @@ def one_case(rng, res):
     try:
         ch, desc = gen_case(rng, root)
         scn = scen.build(ch, root, rng)
+        scn.params = vcommon.pick_params(rng, desc)
         nontrivial = desc["threshold"] > 1 or any(f["differs"] for f in desc["files"])
         att = desc.pop("attested")
         i, m, _ = vcommon.run_case(scn, desc, res, nontrivial)
